@@ -40,7 +40,7 @@ NAMES = ["w.gwl", "W.GWL", "other.gwl", "w.txt", "w", "w.gwlx"]
 
 class Harness(cm.BaseA):
     id = "C17"
-    fresh_quick = True  # every transition is re-executed from a fresh world (hidden state, aliasing)
+
     rule = (
         "every history of <= depth core events followed by any one event of the full alphabet over {emit one record "
         "of each type, save(str/Path) under .gwl and non-.gwl names, __enter__, __exit__ with and without an "
@@ -78,17 +78,23 @@ class Harness(cm.BaseA):
         return {"wl": wl, "files": files}
 
     def core_events(self, W, config):
-        return EMIT[:4] + [["save", "w.gwl", "str"], ["save", "W.GWL", "Path"], ["save", "w.txt", "str"], ["enter"], ["exit", False], ["exit", True]]
+        return EMIT[:4] + [["save", "w.gwl", "str"], ["save", "W.GWL", "Path"], ["save", "w.txt", "str"], ["save", "other.gwl", "str"], ["enter"], ["exit", False], ["exit", True]]
 
     def full_events(self, W, config):
         ev = list(EMIT if config["cls"] == "EvoWorklist" else EMIT[:-1])
         for n in NAMES:
             for t in ("str", "Path"):
                 ev.append(["save", n, t])
-        return ev + [["enter"], ["exit", False], ["exit", True], ["with_raise"]]
+        ev += [["enter"], ["exit", False], ["exit", True], ["with_raise"]]
+        if W.get("n", 0) > 1:
+            return ev
+        # long scripts (block-wise writers, buffer boundaries): only from states reached by <= 1 event
+        return ev + [["save", "w.gwl", "str", 1023], ["save", "w.gwl", "Path", 1024], ["save", "w.gwl", "str", 1025], ["save", "W.GWL", "str", 4097], ["save", "other.gwl", "Path", 8193]]
 
     def canon(self, W, config):
-        return repr((list(W["wl"]), sorted(W["files"].items()))).encode()
+        import hashlib
+
+        return hashlib.blake2b(repr((list(W["wl"]), sorted(W["files"].items()))).encode(), digest_size=16).digest()
 
     def step(self, W, ev, config):
         d = workdir()
@@ -98,6 +104,7 @@ class Harness(cm.BaseA):
             with open(os.path.join(d, n), "wb") as f:
                 f.write(b)
         wl = W["wl"]
+        W["n"] = W.get("n", 0) + 1
         before = list(wl)
         cwd = os.getcwd()
         os.chdir(d)
@@ -106,6 +113,17 @@ class Harness(cm.BaseA):
             try:
                 if ev[0] == "emit":
                     getattr(wl, ev[1])(*ev[2], **ev[3])
+                elif ev[0] == "save" and len(ev) > 3:
+                    # a long script (many records of alternating kinds and lengths), then saved
+                    for i in range(ev[3]):
+                        if i % 3 == 0:
+                            wl.aspirate_well("Plate", 1 + i % 96, 10 + (i % 7) * 0.25)
+                        elif i % 3 == 1:
+                            wl.dispense_well("Plate", 1 + i % 96, 10 + (i % 7) * 0.25)
+                        else:
+                            wl.wash()
+                    before = list(wl)
+                    wl.save(ev[1] if ev[2] == "str" else Path(ev[1]))
                 elif ev[0] == "save":
                     wl.save(ev[1] if ev[2] == "str" else Path(ev[1]))
                 elif ev[0] == "enter":
@@ -196,6 +214,8 @@ class Harness(cm.BaseA):
         else:
             if files != oldfiles:
                 V.append(("C17/other-files-touched", f"{ev} changed the directory"))
+        if len(recs) > 500:
+            res["expand"] = False
         if str(wl) != "\n".join(recs):
             V.append(("C17/str", f"str(worklist) = {str(wl)[:80]!r}"))
         fp = wl.filepath
